@@ -1,5 +1,5 @@
 //! C16 — backing memory is a permissioned byte map under overlapping writes.
-use crate::explore::history::{explore, Subject};
+use crate::explore::history::{explore_traced, Subject};
 use crate::report::{Acc, Describe};
 use crate::util::{guarded, panic_class};
 use crate::{Ctx, Prop};
@@ -256,6 +256,9 @@ impl Subject for Sub {
             }
         }
     }
+    fn case_json(&self, hist: &[Op], op: Option<&Op>) -> Value {
+        hist_json(self, hist, op)
+    }
     fn op_json(&self, op: &Op) -> Value {
         match op {
             Op::Set { a, len, perm } => json!(["set_memory", a, len, perm]),
@@ -279,11 +282,11 @@ fn run(ctx: &Ctx) -> Acc {
     let mut acc = Acc::new();
     // reduced alphabet one level deeper, full alphabet at the base depth
     let (d_full, d_red) = if ctx.tier.thorough() { (3, 4) } else { (3, 3) };
-    let a = explore(Sub { endian: endian.clone(), full: true }, Some(d_full), 8);
+    let a = explore_traced(Sub { endian: endian.clone(), full: true }, Some(d_full), 8, ctx.trace_path.as_deref());
     acc.count("max_depth_full_alphabet", 0);
     acc.max("max_depth_full_alphabet", d_full as u64);
     acc.merge(a);
-    let a = explore(Sub { endian: endian.clone(), full: false }, Some(d_red), 8);
+    let a = explore_traced(Sub { endian: endian.clone(), full: false }, Some(d_red), 8, ctx.trace_path.as_deref());
     acc.max("max_depth_reduced_alphabet", d_red as u64);
     acc.merge(a);
     acc.count("traces", acc.get("states"));
